@@ -41,6 +41,7 @@ def dispatch (toks : List String) : String :=
   | "bv" :: rest => Blue.Driver.C19.handleBv rest
   | "doc" :: rest => Blue.Driver.C19.handleDoc rest
   | "log" :: rest => Blue.Driver.C12.handle rest
+  | "conclog" :: rest => Blue.Driver.C12.handleConc rest
   | "lru" :: _ | "wl" :: _ | "wcq" :: _ | "wake" :: _ => Blue.Driver.C18.handle toks
   | "skip" :: _ | "list" :: _ => Blue.Driver.C17.handle toks
   | "kvsw" :: rest => Blue.Driver.C06.handle rest
